@@ -248,6 +248,11 @@ def hygiene():
 # ------------------------------------------------------------------------------------------------
 def build_harness():
     hdir = os.path.join(ROOT, 'harness')
+    link = os.path.join(hdir, 'repo')
+    if not os.path.islink(link) or os.readlink(link) != REPO:
+        if os.path.lexists(link):
+            os.remove(link)
+        os.symlink(REPO, link)
     lock = os.path.join(hdir, 'Cargo.lock')
     if not os.path.exists(lock):
         shutil.copy(os.path.join(REPO, 'Cargo.lock'), lock)
